@@ -86,6 +86,8 @@ def _container(spec, how):
     a = gen.build(spec)
     if how == "int":
         return np.array(np.round(a * 8), dtype=np.int64)
+    if how in gen.NARROW_DTYPES:  # raw digitiser counts using the dtype's full range (most negative sample = the dtype's minimum)
+        return gen.narrow_int(a, how)[0]
     if how == "list":
         return [float(v) for v in a]
     if how == "subclass":
@@ -965,7 +967,7 @@ def _pure_cases(draw):
 
 
 @clause(CLAUSES, "pure-functions", _pure_cases(), quick=14, quick_shards=3, thorough=45,
-        rule="each case calls, for each of the three container variants (float64 / int64 ndarray, list), every PRIMARY call form (one per function "
+        rule="each case calls, for each of three container variants (float64 ndarray; int64 or full-range int16 / int32 ndarray; list), every PRIMARY call form (one per function "
              "with all options at their defaults + one with every option non-default, the object methods taking arrays, the 0-d dt variants, "
              "loader.save) and one in 4 (rotating with the case) of the remaining forms of the cross product of every function's optional "
              "arguments (%d forms in all: sdof, displacements, im, fns.average/generic/frequency/peaks_and_crossings/time_shift/time_step, "
@@ -973,9 +975,11 @@ def _pure_cases(draw):
         oracle="snapshot (dtype, shape, bytes; signal values/dt/npts) of every argument before vs after each call; no array of the result shares "
                "memory with an argument; the two results equal (NaN-aware, exact) although the caller overwrote the first result in place "
                "before the second call; returned signals are new objects",
-        require={"how=int": 0.9, "how=list": 0.9})
+        require={"how=int": 0.15, "how=int16": 0.15, "how=int32": 0.15, "how=list": 0.9})
 def pure_functions(case, ctx):
-    for how in (["float", "int", "list"] if "how" not in case else [case["how"]]):
+    # the integer container alternates between int64 and the narrow dtypes int16 / int32 (full range) with the case's seed
+    ints = ("int", "int16", "int32")[int(core.case_hash(case)[:4], 16) % 3]
+    for how in (["float", ints, "list"] if "how" not in case else [case["how"]]):
         _pure_one(case, ctx, how)
 
 
